@@ -1,21 +1,25 @@
 use slotted_egraphs::*;
-use verif_harness::langs::T;
+use verif_harness::langs::A;
 fn main() {
-    // repeated in fresh e-graphs: the iteration order of the group's HashSet differs
-    let mut bad = 0;
-    for round in 0..40 {
-        let mut eg: EGraph<T> = EGraph::default();
-        let add = |eg: &mut EGraph<T>, s: &str| eg.add_expr(RecExpr::parse(s).unwrap());
-        let h = add(&mut eg, "(h (f $1 $2) (f $3 $4))");
-        let k = add(&mut eg, "(f3 $1 $3 $4)");
-        eg.union(&h, &k);
-        let a = add(&mut eg, "(f $1 $2)");
-        let b = add(&mut eg, "(f $2 $1)");
-        eg.union(&a, &b);
-        let x = add(&mut eg, "(h (f $1 $2) (f $3 $4))");
-        let y = add(&mut eg, "(h (f $1 $2) (f $4 $3))");
-        let e = eg.eq(&x, &y);
-        if !e { bad += 1; if bad == 1 { println!("round {round}: h(f12,f34) != h(f12,f43)  x={x:?} y={y:?}"); eg.dump(); } }
+    let start: RecExpr<A> = RecExpr::parse(&std::env::var("START").unwrap()).unwrap();
+    let mut eg: EGraph<A> = EGraph::with_subst_method::<ExtractionSubst>(());
+    eg.add_expr(start);
+    let sel: Vec<usize> = std::env::args().skip(1).map(|x| x.parse().unwrap()).collect();
+    let all: Vec<(&str, &str, &str)> = vec![
+        ("let-subst", "(let $1 ?a ?c)", "?a[(var $1) := ?c]"),
+        ("distr", "(mul ?a (add ?b ?c))", "(add (mul ?a ?b) (mul ?a ?c))"),
+        ("let-add", "(let $1 (add ?a ?b) ?c)", "(add (let $1 ?a ?c) (let $1 ?b ?c))"),
+        ("let-sum", "(let $1 (sum $2 ?a) ?c)", "(sum $2 (let $1 ?a ?c))"),
+        ("let-var", "(let $1 (var $1) ?c)", "?c"),
+        ("pull-in", "(mul ?a (sum $1 ?b))", "(sum $1 (mul ?a ?b))"),
+        ("sum-swap", "(sum $1 (sum $2 ?a))", "(sum $2 (sum $1 ?a))"),
+        ("mul0-var", "(mul 0 ?a)", "(mul 0 (var $3))"),
+    ];
+    let rws: Vec<Rewrite<A>> = all.iter().enumerate().filter(|(i, _)| sel.is_empty() || sel.contains(i)).map(|(_, (n, l, r))| Rewrite::new(n, l, r)).collect();
+    for i in 0..4 {
+        let ch = apply_rewrites(&mut eg, &rws);
+        println!("iter {i}: changed={ch} nodes={} classes={}", eg.total_number_of_nodes(), eg.ids().len());
+        let ex = Extractor::<A, AstSize>::new(&eg, AstSize);
+        let _ = ex;
     }
-    println!("missing equality in {bad}/40 rounds");
 }
